@@ -199,10 +199,40 @@ def t_chart_init_subclass():
     return Target('HsmWithQueues.__init__[subclass with its own QUEUE_SIZE]', run, ['hsm.HsmWithQueues.__init__'])
 
 
+def t_ao_init_subclass():
+    """An active object of a subclass with its own QUEUE_SIZE: every pending event can own a wake-up token (the
+    wake-up swallows queue.Full on exactly that ground) and the container tracking the timed sources holds as many
+    records as __post_event admits (its admission test reads self.__class__.QUEUE_SIZE), so no record is displaced."""
+    def run(it):
+        c = it.c
+        cap = c.fresh('QUEUE_SIZE_of_the_subclass', z3.IntSort())
+        c.assume(cap >= 1)
+        it.w.subclass_consts = {('HsmWithQueues', 'QUEUE_SIZE'): SInt(cap), ('ActiveObject', 'QUEUE_SIZE'): SInt(cap)}
+        try:
+            self = c.fresh_ref('self', 'ActiveObject')
+            out = run_body(it, method(it, self, '__init__'), [])
+        finally:
+            it.w.subclass_consts = {}
+        c.prove('ActiveObject.__init__[subclass]:post/returns-normally', out.raised is None, tags=('C04', 'C11', 'C16'))
+        if out.raised is not None:
+            return
+        ld = c.read(self, 'locking_deque')
+        d, q = c.read(ld, 'deque'), c.read(ld, 'locking_queue')
+        c.prove('ActiveObject.__init__[subclass]:post/a-wake-up-token-for-every-event-the-queue-can-hold',
+                z3.And(c.hget(d, '$maxlen') >= 1, c.hget(d, '$maxlen') <= c.hget(q, 'maxsize')), tags=('C04', 'C16'))
+        c.prove('ActiveObject.__init__[subclass]:post/queue-is-the-locking-deque',
+                c.hget(self, 'queue') == ld.e, tags=('C04', 'C16'))
+        pe = c.read(self, 'posted_events_queue')
+        c.prove('ActiveObject.__init__[subclass]:post/tracking-container-holds-every-source-the-admission-test-lets-in',
+                z3.And(c.hget(pe, '$maxlen') >= cap, c.hget(pe, '$len') == 0), tags=('C11', 'C31', 'C12'))
+    return Target('ActiveObject.__init__[subclass with its own QUEUE_SIZE]', run,
+                  ['activeobject.ActiveObject.__init__', 'activeobject.LockingDeque.__init__', 'hsm.HsmWithQueues.__init__'])
+
+
 def build(src, tier):
     w = Q.world_for(src, tier)
     ts = [t_ld_init(), t_ld_put('fifo'), t_ld_put('lifo'), t_ld_take('popleft'), t_ld_take('pop'), t_ld_clear(),
-          t_ld_sizes(), t_chart_init('HsmWithQueues'), t_chart_init_subclass()]
+          t_ld_sizes(), t_chart_init('HsmWithQueues'), t_chart_init_subclass(), t_ao_init_subclass()]
     for host in Q.HOSTS:
         ts += [Q.t_post(host, 'fifo', ('C16',)), Q.t_post(host, 'lifo', ('C16',))]
     return [(w, ts)]
